@@ -139,8 +139,14 @@ class RealWorld:
         self.saved_max = ssnet.MAX_CHANNEL
         ssnet.MAX_CHANNEL = maxch
         self.saved_time = client.time.time
+        self.saved_mono = client.time.monotonic
         self.now = 1000
         client.time.time = lambda: self.now
+        # the monotonic clock runs at the same rate from another origin (uptime, not the epoch): code that mixes the
+        # two clocks compares numbers that have nothing to do with each other
+        client.time.monotonic = lambda: self.now - 1000 + 77.25
+        self.premature = {}    # id -> (flow, deadline, kind): dropped by the client before its deadline, unanswered
+        self.reassigned = []
         client.dnsreqs.clear()
         client.udp_by_src.clear()
         self.mux = ssnet.Mux(DummyFile(), DummyFile())
@@ -162,6 +168,7 @@ class RealWorld:
         self.ssnet.MAX_CHANNEL = self.saved_max
         self.helpers.verbose = self.saved_verbose
         self.client.time.time = self.saved_time
+        self.client.time.monotonic = self.saved_mono
         self.client.dnsreqs.clear()
         self.client.udp_by_src.clear()
 
@@ -187,13 +194,19 @@ class RealWorld:
     def sync(self):
         """flows the client no longer holds (lazy expiry swept them) are closed: read off the real tables"""
         c = self.client
-        for f in self.flows.values():
+        for n, f in self.flows.items():
             if not f['open']:
                 continue
+            gone = False
             if f['kind'] == 'dns' and f['chan'] not in c.dnsreqs:
-                f['open'] = False
+                gone = True
             elif f['kind'] == 'udp' and c.udp_by_src.get(f['src'], (None, 0))[0] != f['chan']:
+                gone = True
+            if gone:
                 f['open'] = False
+                if self.now <= f['deadline']:
+                    # not answered, not closed, its 30 s not over: the server still has this flow open on the id
+                    self.premature[f['chan']] = (n, f['deadline'], f['kind'])
 
     def again(self, chan):
         """a datagram from the source whose UDP association has this id"""
@@ -204,6 +217,7 @@ class RealWorld:
         n0 = len(self.mux.outbuf)
         self.method.next_udp = (own[0]['src'], ('192.0.2.9', 9), b'more')
         c.onaccept_udp(self.listener, self.method, self.mux, self.handlers)
+        own[0]['deadline'] = self.now + 30
         import struct
         sent = [struct.unpack('!ccHHH', p[:8])[2:4] for p in self.mux.outbuf[n0:]]
         data = [ch for (ch, cmd) in sent if cmd == self.ssnet.CMD_UDP_DATA]
@@ -260,6 +274,11 @@ class RealWorld:
         # the accept handlers end with expire_connections(now): overdue DNS/UDP flows are swept (the model predicts
         # which; the harness only reads the outcome off the real tables)
         self.sync()
+        pm = self.premature.get(chan)
+        if pm and pm[0] != flow and self.now <= pm[1]:
+            self.reassigned.append('id %d handed to the new %s flow at t=%d while the %s flow %d (unanswered, not closed, '
+                                   'deadline t=%d) still owns it at the server'
+                                   % (chan, kind, self.now, pm[2], pm[0], pm[1]))
         return 'opened %s %d' % (chan, flow)
 
     def find_open(self, chan):
@@ -349,6 +368,15 @@ def run(ctx):
         ctx.count()
         ctx.mark(('reader-closed-keeps-sending', which), True)
         ctx.hist('directed:reader-closed-keeps-sending')
+    # a flow aborted by its application while the server's frames for it are in flight, then a new connection: the
+    # released id is not the next one handed out (the cursor only moves forward), nothing of the old flow reaches the new
+    for chunks in (2, 4):
+        a, b = tg.abort_then_new_flow(ctx, ctx.rng, 'C06', chunks)
+        t_in.append(a)
+        t_out.append(b)
+        ctx.count()
+        ctx.mark(('abort-then-new-flow', chunks), True)
+        ctx.hist('directed:abort-then-new-flow')
     tg.compare(ctx, t_in, t_out, 'C06')
     import sshuttle.ssnet as ssnet
     import sshuttle.helpers as helpers
@@ -435,6 +463,12 @@ def run(ctx):
                             w.wire()
                             o = w.open(arg)
                             li = 'open %s' % arg
+                            if w.reassigned:
+                                ctx.violation('C06:timed:id-reassigned-before-the-owning-flow-ended',
+                                              case=dict(kind='history', verbose=CUR[0], max=maxch, chani=chani, ops=rops + [li]),
+                                              expected='a DNS query / UDP association keeps its id until it is answered, '
+                                                       'closed or 30 s idle', observed=w.reassigned[0], kind='history')
+                                w.reassigned = []
                             if o.startswith('opened'):
                                 want_id = int(o.split()[1])
                                 seen = w.wire()
@@ -553,6 +587,11 @@ def run(ctx):
         for gap in (29, 30, 31, 61):
             history(2, 0, [('open', 'udp'), ('open', 'dns'), ('tick', gap), ('again', 0), ('open', 'tcp'), ('open', 'tcp'),
                            ('frame', 1), ('frame', 2)], 'refresh-after-idle')
+        # an accept of another kind between a question and its answer, then the cursor comes round
+        for first in ('dns', 'udp'):
+            for gap in (0, 4, 29):
+                history(2, 0, [('open', first), ('tick', gap), ('open', 'tcp'), ('close', 2), ('open', 'udp'), ('open', 'dns'),
+                               ('frame', 1), ('frame', 2)], 'accept-between-question-and-answer')
         if ctx.thorough:
             # all histories up to length 5 over MAX=2 (small-scope cross-check, not the proof)
             alphabet = [('open', 'tcp'), ('open', 'dns'), ('open', 'udp'), ('close', 1), ('close', 2),
@@ -585,6 +624,11 @@ def replay(ctx, rep):
         c2 = type(ctx)(ctx.prop_id, 'quick', 0)
         for maxchan in (1, 2):
             tg.reap_after_reuse(c2, c2.rng, 'C06', maxchan)
+        tg.closed_app_streaming_dst(c2, c2.rng, 'C06')
+        for which in ('dst', 'app'):
+            tg.reader_closed_keeps_sending(c2, c2.rng, 'C06', which)
+        for chunks in (2, 4):
+            tg.abort_then_new_flow(c2, c2.rng, 'C06', chunks)
         hit = [v for v in c2.violations if v['key'] == rep.get('key')]
         return bool(hit), (str(hit[0]['observed']) if hit else 'the new flow keeps its identifier and its bytes')
     import sshuttle.ssnet as ssnet
@@ -611,6 +655,8 @@ def replay(ctx, rep):
                     elif k == 'open':
                         w.wire()
                         o = w.open(a)
+                        if w.reassigned:
+                            return True, w.reassigned[0]
                         if o.startswith('opened'):
                             want_id = int(o.split()[1])
                             seen = w.wire()
